@@ -147,6 +147,89 @@ theorem chunked_binarizer_once (s : LP α) (h : s.WF) (w : Option Nat) (hw : s.k
   rw [chunked_eq_batch_full s h w hw cs c₀]
   exact fit_binarizer_once s _ w
 
+/-! ### the log the counters are computed from is the converted log -/
+
+/-- the converted log of one arm: `binarizer(arm, reward)` for each of its observations, in order -/
+def convLog (f : α → Rat → Rat) (a : α) (l : List (Rat × Vec)) : List (Rat × Vec) := l.map fun p => (f a p.1, p.2)
+
+theorem rowsOf_converted (f : α → Rat → Rat) (b : Batch α) (a : α) :
+    rowsOf (b.map fun r => { r with reward := f r.arm r.reward }) a = convLog f a (rowsOf b a) := by
+  unfold rowsOf convLog
+  induction b with
+  | nil => rfl
+  | cons r b ih =>
+    simp only [List.map_cons, List.filter_cons]
+    by_cases h : r.arm = a
+    · simp only [h, decide_true, if_true, List.map_cons, ih]
+    · simp only [h, decide_false, Bool.false_eq_true, if_false]
+      exact ih
+
+/-- the relation between the abstract log of the history and that of the converted history -/
+def ConvRel (f : α → Rat → Rat) (t t' : Spec α) : Prop :=
+  t'.arms = t.arms ∧ t'.N = t.N ∧ ∀ a, t'.log a = convLog f a (t.log a)
+
+theorem convRel_step (f : α → Rat → Rat) (s : LP α) (hf : s.binz = some f) (hc : s.ctxBin = false)
+    (t t' : Spec α) (h : ConvRel f t t') (op : LPOp α) :
+    ConvRel f (t.step op) (t'.step (LPOp.binarizeWith s op)) := by
+  obtain ⟨ha, hN, hl⟩ := h
+  cases op with
+  | fit b w =>
+    simp only [LPOp.binarizeWith, Spec.step, binarize_spec s f b hf hc]
+    exact ⟨ha, by simp, fun a => rowsOf_converted f b a⟩
+  | partialFit b =>
+    simp only [LPOp.binarizeWith, Spec.step, binarize_spec s f b hf hc]
+    refine ⟨ha, by simp [hN], fun a => ?_⟩
+    simp only [rowsOf_converted, hl a, convLog, List.map_append]
+  | addArm x =>
+    simp only [LPOp.binarizeWith, Spec.step, ha]
+    split
+    · exact ⟨ha, hN, hl⟩
+    · refine ⟨by simp [ha], hN, fun a => ?_⟩
+      simp only
+      split
+      · rfl
+      · exact hl a
+  | removeArm x =>
+    simp only [LPOp.binarizeWith, Spec.step, ha]
+    split
+    · exact ⟨by simp [ha], hN, hl⟩
+    · exact ⟨ha, hN, hl⟩
+
+theorem convRel_run (f : α → Rat → Rat) (s : LP α) (hf : s.binz = some f) (hc : s.ctxBin = false)
+    (ops : List (LPOp α)) (t t' : Spec α) (h : ConvRel f t t') :
+    ConvRel f (t.run ops) (t'.run (ops.map (LPOp.binarizeWith s))) := by
+  unfold Spec.run
+  induction ops generalizing t t' with
+  | nil => exact h
+  | cons op ops ih =>
+    simp only [List.map_cons, List.foldl_cons]
+    exact ih _ _ (convRel_step f s hf hc t t' h op)
+
+/-- **C14 + C01, Thompson Sampling with a binarizer, every history.**  After any history of fit /
+    partial_fit / add_arm / remove_arm the Beta parameters of every current arm are one plus the number of
+    that arm's observations (since its last fit / add) whose *converted* reward is 1, and one plus the
+    number whose converted reward is 0 — each observation converted and counted exactly once. -/
+theorem thompson_counts_binarized (f : α → Rat → Rat) (arms : List α) (hn : arms.Nodup) (ops : List (LPOp α))
+    (a : α) (ha : a ∈ ((LP.init .thompson arms (some f) false).run ops).arms) :
+    let log := convLog f a (((Spec.init arms).run ops).log a)
+    (((LP.init .thompson arms (some f) false).run ops).st.get? a).map (fun r => (r.succ, r.fail)) =
+      some (1 + lsum log, 1 + ((log.length : Rat) - lsum log)) := by
+  intro log
+  have hs : (LP.init .thompson arms (some f) false) = (LP.init .thompson arms none false).withBinz (some f) := rfl
+  have hnb : (LP.init .thompson arms (some f) false).noBinz = LP.init .thompson arms none false := rfl
+  have hrun := run_binarizer_once (LP.init .thompson arms (some f) false) ops
+  rw [hnb] at hrun
+  have ha' : a ∈ ((LP.init .thompson arms none false).run
+      (ops.map (LPOp.binarizeWith (LP.init .thompson arms (some f) false)))).arms := by
+    rw [hrun] at ha; exact ha
+  have hcnt := cf_thompson_counts arms hn _ a ha'
+  have hrel := convRel_run f (LP.init .thompson arms (some f) false) rfl rfl ops (Spec.init arms) (Spec.init arms)
+    ⟨rfl, rfl, fun _ => rfl⟩
+  simp only at hcnt
+  rw [hrel.2.2 a] at hcnt
+  rw [hrun]
+  exact hcnt
+
 /-! non-vacuity: a non-idempotent binarizer (r ↦ 1 if r ≤ 1/2 else 0) over a history with an omitted
     arm, an added arm and a removed arm; the twin receives the converted rewards -/
 def c14bBinz : Nat → Rat → Rat := fun _ r => if r ≤ (1 : Rat) / 2 then 1 else 0
